@@ -844,3 +844,27 @@ def shrink(c):
     if c['sq'] and c['iso']:
         yield dict(c, sq=False)
         yield dict(c, iso=False)
+
+
+# ------------------------------------------------------------------ source tie (appended; harness/translate.py)
+# pre(): regenerate coq/gen/GenFuns_C17.v from the Python source of the tree under test and, if it changed, re-prove
+# GenProps/GenFunsEquivC17.v, GenProps/C17Src.v and Properties/C17.v (theorem C17_source_tie) by hand.
+# extra_checks(): report a failed translation / equivalence proof (theorem names, translator or coqc error).
+from harness import translate as _translate
+_prev_pre = globals().get('pre')
+_prev_extra_checks = globals().get('extra_checks')
+TRUSTED = list(globals().get('TRUSTED', [])) + [_translate.TRUSTED_NOTE]
+NOTES = list(globals().get('NOTES', [])) + [
+    'coq/gen/GenFuns_C17.v is regenerated from the Python source at the start of every run; theorem C17_source_tie '
+    'proves the regenerated definitions equal to the hand-written model for all inputs']
+
+
+def pre(ctx):
+    if _prev_pre is not None:
+        _prev_pre(ctx)
+    _translate.pre_hook(ctx, 'C17')
+
+
+def extra_checks(ctx):
+    out = list(_prev_extra_checks(ctx)) if _prev_extra_checks is not None else []
+    return out + _translate.extra_hook(ctx, 'C17')
